@@ -47,13 +47,30 @@ def translate(ctx):
         ctx.brk('translator:decoder-constants', repr(e))
 
 
+SELECTOR_ORDER = ['ascending']      # how the pre-selection lists the relevant symbols: any order is legal (the selector is a constructor argument)
+
+
 def run_real(dec_cls, blank_sym, rows, k, pruning, lm=None, **kw):
     C = len(rows[0])
     letters = [chr(97 + i) for i in range(C - 1)] + [blank_sym]
-    if pruning:
-        dec = dec_cls(letters, k, lm=lm, **kw)
+    order = SELECTOR_ORDER[0]
+    if order == 'ascending':
+        if pruning:
+            dec = dec_cls(letters, k, lm=lm, **kw)
+        else:
+            dec = dec_cls(letters, k, lm=lm, relevant_logits_selector=lambda x: np.nonzero(x > -np.inf), **kw)
     else:
-        dec = dec_cls(letters, k, lm=lm, relevant_logits_selector=lambda x: np.nonzero(x > -np.inf), **kw)
+        # the same pre-selection (threshold -10 / everything) handed over most-probable-first or in a fixed scrambled order
+        thr = -10.0 if pruning else -np.inf
+
+        def sel(x, thr=thr, order=order):
+            idx = np.nonzero(x > thr)[0]
+            if order == 'descending':
+                idx = idx[np.argsort(-x[idx], kind='stable')]
+            else:
+                idx = idx[::-1]
+            return (idx,)
+        dec = dec_cls(letters, k, lm=lm, relevant_logits_selector=sel, **kw)
     return dec, letters
 
 
@@ -131,8 +148,11 @@ def run(ctx):
             L = L.copy()
             L[t] = L[t] + rng.choice([0.01, -0.02, 0.5])
         ctx.evaluations += 1
-        inp = dict(weights=rows, k=k, pruning_selector=pruning, unnormalised=unnorm)
+        SELECTOR_ORDER[0] = rng.choice(['ascending', 'ascending', 'descending', 'reversed'])
+        inp = dict(weights=rows, k=k, pruning_selector=pruning, unnormalised=unnorm, selector_order=SELECTOR_ORDER[0])
         dec, letters = run_real(CTCPrefixLogRawNumpyDecoder, BLANK_SYMBOL, rows, k, pruning)
+        SELECTOR_ORDER[0] = 'ascending'
+        ctx.count('selector_order:' + inp['selector_order'])
         if rng.random() < 0.3:   # the decoder object has decoded another line before
             inp['decoder_reused'] = True
             try:
